@@ -63,10 +63,19 @@ func genC19Load(t *rapid.T) c19LoadCase {
 			doc["version"] = "2.4"
 			doc["name"] = "named"
 		}
+		// an extension for which the caller registered a Go type (the prototype is shared by all loads)
+		known := rapid.SampledFrom([]string{"", "", "value", "pointer"}).Draw(t, "known-extension")
+		if known != "" {
+			ext := map[string]any{"name": fmt.Sprintf("input-%d", i), "tags": map[string]any{fmt.Sprintf("k%d", i): "v"}, "list": []any{fmt.Sprintf("e%d", i), "x"}}
+			doc["x-known"] = ext
+			svcs := doc["services"].(map[string]any)
+			svcs[sortedKeys(svcs)[0]].(map[string]any)["x-known"] = cloneTree(ext)
+		}
 		files = append(files, memFile{Name: "compose.yaml", Content: emitYAML(doc, nil)})
 		in := loadCase{Files: files, Main: []string{"compose.yaml"}, Env: map[string]string{"SECRET_token": "s", "SECRET_cert": "c", "SECRET_apikey": "k"}}
 		// the project name may come from the caller or be worked out from the files
 		in.Opts.NameNotImperative = rapid.Bool().Draw(t, "name-from-files")
+		in.Opts.KnownExt = known
 		cs.Inputs = append(cs.Inputs, in)
 	}
 	cs.Shared = rapid.Bool().Draw(t, "shared-details")
